@@ -231,5 +231,10 @@ func (fs *FS) Rename(oldname, newname string) error {
 		_ = hackpadfs.Remove(newMount, newSubPath)
 		return renameErr(err)
 	}
+	// the mode passed to OpenFile only applies to a file it creates: a destination that existed keeps its old mode
+	err = hackpadfs.Chmod(newMount, newSubPath, oldInfo.Mode())
+	if err != nil {
+		return renameErr(err)
+	}
 	return renameErr(hackpadfs.Remove(oldMount, oldSubPath))
 }
